@@ -2,24 +2,30 @@ import Fdo.Drv.Cbor
 import Fdo.Drv.Typed
 import Fdo.Drv.Cose
 import Fdo.Drv.Prim
+import Fdo.Drv.Kex
 /-
 Line-protocol driver: one operation per input line, one reply per output line.
 Imports model modules only (no proofs, no Mathlib) so that it links as a `lean_exe`.
 -/
 open Fdo
 
+/-- command prefix ↦ handler; one line per area so that additions merge cleanly -/
+def handlers : List (String × (String → List String → Option String)) := [
+  ("cbor.typed", Drv.Typed.handle),
+  ("cbor.", Drv.Cbor.handle),
+  ("cose.", Drv.Cose.handle),
+  ("prim.", Drv.Prim.handle),
+  ("kex.", Drv.Kex.handle),
+]
+
 def dispatch (line : String) : String :=
   match (line.splitOn " ").filter (· ≠ "") with
   | [] => "bad-op"
   | ["flush"] => "flushed"
   | cmd :: args =>
-    let r :=
-      if cmd.startsWith "cose." then Drv.Cose.handle cmd args
-      else if cmd == "cbor.typed" then Drv.Typed.handle cmd args
-      else if cmd.startsWith "cbor." then Drv.Cbor.handle cmd args
-      else if cmd.startsWith "prim." then Drv.Prim.handle cmd args
-      else none
-    r.getD "bad-op"
+    match handlers.find? (fun h => cmd.startsWith h.1) with
+    | some (_, f) => (f cmd args).getD "bad-op"
+    | none => "bad-op"
 
 partial def loop (hin : IO.FS.Stream) (hout : IO.FS.Stream) : IO Unit := do
   let line ← hin.getLine
